@@ -1,5 +1,5 @@
 //@ create src/cli/tests/verif_argv.rs
-//@ native verif_oracle_cli_flows "bounded stand-in / witness finder (C01, C02, C05, C07, C08, C13, C16): the built kestrel binary on the shipped two-key keyring: encrypt for every (from, to) in {alice, bob}^2 (incl. to self) with a 10-byte and a 70000-byte input, file length = 132 + 32 per chunk + plaintext, the same number of bytes and the magic when the ciphertext goes to standard output, decrypt as each key succeeds exactly for `to`, returns the input and names `from`, a failed decrypt leaves no output file and an existing one intact; with the last chunk of a two-chunk file corrupted the output holds exactly the first chunk and the exit status is 1; password mode round trip, rejection of a different password and of the password with a trailing space, tab or newline; extract-pub accepts the key's password and rejects it with a trailing newline / CR LF / space, a leading space, or one letter changed; change-pass (also to a password ending in a newline) keeps the public key, makes the old password fail, draws a new salt also when the new password equals the old one; two identical encrypt invocations differ in their ephemeral key"
+//@ native verif_oracle_cli_flows "bounded stand-in / witness finder (C01, C02, C05, C07, C08, C13, C16): the built kestrel binary on the shipped two-key keyring: encrypt for every (from, to) in {alice, bob}^2 (incl. to self) with an empty, a 10-byte and a 70000-byte input, file length = 132 + 32 per chunk + plaintext, the same number of bytes and the magic when the ciphertext goes to standard output, decrypt as each key succeeds exactly for `to`, returns the input and names `from`, a failed decrypt leaves no output file and an existing one intact; with the last chunk of a two-chunk file corrupted the output holds exactly the first chunk and the exit status is 1; password mode round trip, rejection of a different password and of the password with a trailing space, tab or newline; extract-pub accepts the key's password and rejects it with a trailing newline / CR LF / space, a leading space, or one letter changed; change-pass (also to a password ending in a newline, and to the empty password) keeps the public key, makes the old password fail, draws a new salt also when the new password equals the old one; two identical encrypt invocations differ in their ephemeral key"
 //@ native verif_oracle_argv_sweep "bounded stand-in / witness finder (C09, C13): the built kestrel binary (stdin closed, no controlling terminal, KESTREL_* unset, scratch working directory) on every argument vector of length <= 2 over 38 tokens (commands, options, aliases, paths of the shipped test keyring / data files, a missing path, an absent output path, empty and non-ASCII strings), every length-3 vector starting with a command word, and 7 complete command lines with each element in turn dropped, duplicated, or replaced by a missing path or one of 10 degenerate strings ('', '.', '..', '/', ...): exit status is 0 or 1, never a signal or panic text; status 1 carries an 'Error:' line; a failed run never leaves a file at the absent output path"
 // Native oracle on the REAL binary.  Never counted as proved; a disagreement is a concrete failing argument vector.
 use std::path::PathBuf;
@@ -111,12 +111,14 @@ fn verif_oracle_cli_flows() {
     let p = |n: &str| dir.join(n).to_string_lossy().to_string();
     let mut n = 0u32; let mut bad = 0u32; let mut first: Option<String> = None;
     let mut fail = |bad: &mut u32, first: &mut Option<String>, what: String| { *bad += 1; if first.is_none() { *first = Some(what); } };
+    let empty: Vec<u8> = Vec::new();
+    std::fs::write(p("empty"), &empty).unwrap();
     let small: Vec<u8> = b"0123456789".to_vec();
     let big: Vec<u8> = (0..70000u32).map(|i| (i * 31 + 7) as u8).collect();
     std::fs::write(p("small"), &small).unwrap(); std::fs::write(p("big"), &big).unwrap();
     let users = [("alice", "alice"), ("bob", "bob")];
     // ---- key mode: every (from, to), both sizes
-    for (from, fpw) in users.iter() { for (to, _tpw) in users.iter() { for (inp, data) in [("small", &small), ("big", &big)] {
+    for (from, fpw) in users.iter() { for (to, _tpw) in users.iter() { for (inp, data) in [("small", &small), ("big", &big), ("empty", &empty)] {
         n += 1;
         let ct = p("ct"); let _ = std::fs::remove_file(&ct);
         let r = verif_cmd(&dir, &["encrypt", &p(inp), "-t", to, "-f", from, "-o", &ct, "-k", &keyring, "--env-pass"], &[("KESTREL_PASSWORD", fpw)]);
@@ -135,10 +137,12 @@ fn verif_oracle_cli_flows() {
         for (reader, rpw) in users.iter() {
             n += 1;
             let out = p("pt"); std::fs::write(&out, b"PREVIOUS CONTENT").unwrap();
+            if reader == to && inp == "empty" { let _ = std::fs::remove_file(&out); }     // an empty plaintext must still produce a (new, empty) file
             let d = verif_cmd(&dir, &["decrypt", &ct, "-t", reader, "-o", &out, "-k", &keyring, "--env-pass"], &[("KESTREL_PASSWORD", rpw)]);
             let got = std::fs::read(&out).unwrap_or_default();
             if reader == to {
-                if d.code != Some(0) || got != **data { fail(&mut bad, &mut first, format!("file from {} to {} ({}): decrypt as {} gives exit {:?}, {} bytes, equal to the input: {} ({})", from, to, inp, reader, d.code, got.len(), got == **data, d.err.trim())); }
+                if inp == "empty" && !std::path::Path::new(&out).exists() { fail(&mut bad, &mut first, format!("empty file from {} to {}: decrypt as {} reports exit {:?} but leaves no output file", from, to, reader, d.code)); }
+                else if d.code != Some(0) || got != **data { fail(&mut bad, &mut first, format!("file from {} to {} ({}): decrypt as {} gives exit {:?}, {} bytes, equal to the input: {} ({})", from, to, inp, reader, d.code, got.len(), got == **data, d.err.trim())); }
                 else if !d.err.contains(&format!("File from: {}", from)) { fail(&mut bad, &mut first, format!("file from {} to {}: decrypt as {} does not name the sender: {:?}", from, to, reader, d.err)); }
             } else {
                 if d.code != Some(1) { fail(&mut bad, &mut first, format!("file from {} to {}: decrypt as {} (not the recipient) exits {:?}", from, to, reader, d.code)); }
@@ -210,7 +214,7 @@ fn verif_oracle_cli_flows() {
                 fail(&mut bad, &mut first, format!("extract-pub of alice's locked key under password {:?}: exit {:?} (expected {})", w, e.code, if ok { "the public key" } else { "rejection" }));
             }
         }
-        for newpw in ["alicenew", "alice", "alicenew\n"] {
+        for newpw in ["alicenew", "alice", "alicenew\n", ""] {
             n += 1;
             let a = verif_cmd(&dir, &["key", "change-pass", &alice_sk, "--env-pass"], &[("KESTREL_PASSWORD", "alice"), ("KESTREL_NEW_PASSWORD", newpw)]);
             let b = verif_cmd(&dir, &["key", "change-pass", &alice_sk, "--env-pass"], &[("KESTREL_PASSWORD", "alice"), ("KESTREL_NEW_PASSWORD", newpw)]);
